@@ -46,13 +46,13 @@ Definition Fexcl (l : list ty) := mkOpts false false false None None l.
 
 Ltac witness := repeat (first [ split | eexists ]); try (vm_compute; discriminate).
 
-(* K8: any numeric dict key, ignore_string_case -> ValueError *)
-Theorem alt_numeric_key_refuted :
-  exists a, alt_full Fcase cdef a a /\ run cdef no_opts a a = Ok ([], []) /\ run cdef Fcase a a = Err EValue.
-Proof.
-  exists (VDict [(AInt 1, vi 5)]). split; [|split; reflexivity].
-  apply af_dict. cbn. constructor; [|constructor]. split; [reflexivity|apply af_atom; reflexivity].
-Qed.
+(* K8 (fixed by d664dbb): a numeric dict key under ignore_string_case / ignore_string_type_changes alone is
+   left as it is - no ValueError any more *)
+Example numeric_key_without_precision :
+  let a := VDict [(AInt 1, vi 5)] in
+  run cdef Fcase a a = Ok ([], []) /\ run cdef Fstrty a a = Ok ([], []) /\
+  clean_key Fcase (AInt 1) = Ok (AInt 1).
+Proof. repeat split; reflexivity. Qed.
 
 (* significant_digits is not applied to dict keys ({1.5: 0} vs {2.0: 0}, significant_digits=0) *)
 Theorem alt_sig_key_refuted :
@@ -166,10 +166,6 @@ Proof.
   eexists. split; [vm_compute; reflexivity|cbn; discriminate].
 Qed.
 
-(* ---- third clause (no new exception) refuted ---- *)
-Theorem no_new_raise_numeric_key_refuted :
-  exists a, run cdef no_opts a a = Ok ([], []) /\ run cdef Fcase a a = Err EValue /\ run cdef Fstrty a a = Err EValue.
-Proof. exists (VDict [(AInt 1, vi 5)]). repeat split; reflexivity. Qed.
 (* ---- non-vacuity of the guards ---- *)
 Definition Fmix := mkOpts true true true None None [].      (* case + str/bytes + int/float *)
 Definition ex1 : value :=
@@ -217,8 +213,6 @@ Proof.
     rewrite ?Nat.eqb_refl; reflexivity.
 Qed.
 
-(* safe inputs exist (third clause) *)
-Example safe_ex : safe Fmix ex2 = true. Proof. reflexivity. Qed.
 
 (* ---- the hypotheses of the monotone theorem are satisfiable together ---- *)
 Definition KUx (k : atom) : Prop := In k [S "a"; S "B"; AInt 3].
